@@ -971,6 +971,38 @@ fn equal_qname(
 
 // -----------------------------------------------------------------------------------------------
 
+/// Verification hooks (feature `verif`, off by default): public wrappers around private functions.
+#[cfg(feature = "verif")]
+pub mod verif_hooks {
+    use super::*;
+
+    pub fn equal_value(a: &model::Value, b: &model::Value) -> error::Result<bool> {
+        super::equal_value(a, b)
+    }
+
+    pub fn not_equal_value(a: &model::Value, b: &model::Value) -> error::Result<bool> {
+        super::not_equal_value(a, b)
+    }
+
+    pub fn greater_eq_value(a: &model::Value, b: &model::Value) -> error::Result<bool> {
+        super::greater_eq_value(a, b)
+    }
+
+    pub fn greater_than_value(a: &model::Value, b: &model::Value) -> error::Result<bool> {
+        super::greater_than_value(a, b)
+    }
+
+    pub fn less_eq_value(a: &model::Value, b: &model::Value) -> error::Result<bool> {
+        super::less_eq_value(a, b)
+    }
+
+    pub fn less_than_value(a: &model::Value, b: &model::Value) -> error::Result<bool> {
+        super::less_than_value(a, b)
+    }
+}
+
+// -----------------------------------------------------------------------------------------------
+
 #[cfg(test)]
 mod tests {
     use super::*;
